@@ -34,7 +34,7 @@ def run():
     kinds = set()
     for e, k in zip(c.events, cases):
         e["meta"] = {"case": k}
-        ops = k.get("ops") or k.get("acts") or (k["prefix"] + k["suffix"])
+        ops = k["ops"] if "ops" in k else k["acts"] if "acts" in k else (k["prefix"] + k["suffix"])
         kinds.update(o["k"] for o in ops)
         if len(ops) >= 3:
             c.count_nontrivial(json.dumps(k, sort_keys=True))
